@@ -29,8 +29,14 @@ class Rule:
 class Entity:
     def __init__(self, name):
         self.name, self.supers, self.subs_expr, self.attrs, self.rules = name, [], None, [], []
+        self.uniques = []          # Unique(label, qual, attr): `label : attr;` / `label : SELF\\qual.attr;`
         self.line = 0
         self.super_lines = []
+
+
+class Unique:
+    def __init__(self, label, qual, attr):
+        self.label, self.qual, self.attr, self.line = label, qual, attr, 0
 
 
 class TypeDecl:
@@ -67,6 +73,7 @@ class Schema:
     def __init__(self, name):
         self.name, self.decls = name, []
         self.ifaces = []
+        self.file = None               # relative path of the schema's own file when it is not in the main file
         self.drop_semicolon = None     # (decl index, what) for the syntax-error mutant
 
     def entities(self):
@@ -222,6 +229,19 @@ def gen_schema(rng, size=6, tag="", pre=""):
                 x, a = rng.choice(cands)
                 if not any(b.name == a.name for b in e.attrs):
                     e.attrs.append(Attr(a.name, a.ty, redecl_of=x.name))
+    # UNIQUE rules over own and inherited attributes, unqualified or `SELF\\ancestor.attr` (never the needlessly qualified form)
+    for e in ents:
+        k = 0
+        own = [a for a in e.attrs if a.inverse_for is None]
+        if own and rng.random() < 0.35:
+            e.uniques.append(Unique(f"ur{k}", None, rng.choice(own).name)); k += 1
+        inh = []
+        for an in sorted(_ancestors(s_with(s, ents), e)):
+            x = next(y for y in ents if y.name == an)
+            inh += [(x, a) for a in x.attrs if a.inverse_for is None and not any(b.name == a.name for b in e.attrs)]
+        if inh and rng.random() < 0.4:
+            x, a = rng.choice(inh)
+            e.uniques.append(Unique(f"ur{k}", x.name if rng.random() < 0.6 else None, a.name)); k += 1
     # explicit attributes first, then INVERSE ones (the grammar's clause order)
     for e in ents:
         e.attrs = [a for a in e.attrs if a.inverse_for is None] + [a for a in e.attrs if a.inverse_for is not None]
@@ -237,7 +257,7 @@ def render_into(s, out, proto):
     def emit(t):
         out.append(t)
 
-    proto.append(f"schema {s.name} {ln()}")
+    proto.append(f"schema {s.name} {ln()}" + (" " + s.file.encode().hex() if s.file else ""))
     emit(f"SCHEMA {s.name};")
     for i in s.ifaces:
         i.line = ln()
@@ -310,6 +330,12 @@ def render_into(s, out, proto):
                 else:
                     emit(f"  {a.name} : {ty_text(a.ty)} FOR {a.inverse_for};")
                     proto.append(f"inv {a.name} {a.line} {ty_proto(a.ty, a.line)} {a.inverse_for} {a.line}")
+            if d.uniques:
+                emit("UNIQUE")
+            for u in d.uniques:
+                u.line = ln()
+                emit(f"  {u.label} : " + (f"SELF\\{u.qual}.{u.attr}" if u.qual else u.attr) + ";")
+                proto.append(f"unique {u.label} {u.line} {u.qual or '-'} {u.attr}")
             if d.rules:
                 emit("WHERE")
             for r in d.rules:
@@ -338,17 +364,45 @@ def render_into(s, out, proto):
     emit("END_SCHEMA;")
 
 
-def render(s):
-    """one schema or a `File` -> (text, protocol lines)"""
-    out, proto = [], []
+def load_order(f):
+    """external schemas in the order pass 1 pulls their files in (queue of schemas: main file first; per schema partial USE,
+    partial REFERENCE, whole USE, whole REFERENCE clauses)"""
+    loaded = [x for x in f.schemas if not x.file]
+    ext, i = [], 0
+    while i < len(loaded):
+        sch = loaded[i]; i += 1
+        cl = [c for c in sch.ifaces if c.kind == "use" and c.items is not None] + [c for c in sch.ifaces if c.kind == "ref" and c.items is not None] + \
+             [c for c in sch.ifaces if c.kind == "use" and c.items is None] + [c for c in sch.ifaces if c.kind == "ref" and c.items is None]
+        for c in cl:
+            t = f.find_schema(c.schema)
+            if t is not None and t.file and t not in loaded:
+                loaded.append(t); ext.append(t)
+    return ext
+
+
+def render(s, line_base=0, line_reset=False):
+    """one schema or a `File` -> (text of the main file, protocol lines); for a File with schemas in files of their own the
+    texts of those files are left in `s.extra_texts` (path -> text).  Line numbers follow the scanner: they start at `line_base`
+    and, unless `line_reset`, keep counting across the files in the order they are read."""
+    out, proto = [None] * line_base, []
     if isinstance(s, File):
         for sch in s.schemas:
-            render_into(sch, out, proto)
+            if not sch.file:
+                render_into(sch, out, proto)
+        main_lines = out[line_base:]
+        s.extra_texts = {}
+        consumed = len(out)
+        for sch in load_order(s):
+            o2 = [None] * (line_base if line_reset else consumed)
+            k = len(o2)
+            render_into(sch, o2, proto)
+            s.extra_texts[sch.file] = "\n".join(o2[k:]) + "\n"
+            consumed = len(o2)
         if s.order:
             proto.insert(0, "order " + ",".join(s.order))
-    else:
-        render_into(s, out, proto)
-    return "\n".join(out) + "\n", proto
+        return "\n".join(main_lines) + "\n", proto
+    render_into(s, out, proto)
+    return "\n".join(out[line_base:]) + "\n", proto
 
 
 def protocol(path, text, proto, with_bytes=True):
@@ -524,6 +578,9 @@ def m_missing_super(s, rng):
         for d in [x] + [s.find(n2) for n2 in _descendants(s, x)]:
             anc = _ancestors(s, d)
             d.attrs = [a for a in d.attrs if not (a.redecl_of and a.redecl_of not in anc)]
+            vis = {a.name for a in d.attrs} | {a.name for an in anc if isinstance(s.find(an), Entity) for a in s.find(an).attrs}
+            d.uniques = [u for u in d.uniques if (u.qual is None or u.qual in anc) and u.attr in vis]
+            d.rules = [r for r in d.rules if r.kw.get("attr") is None or r.kw["attr"] in vis]
         return Fault("missing-supertype", s, [("MISSING_SUPERTYPE", [p.name, n])])
     ents = s.entities()
     p = rng.choice(ents)
@@ -792,7 +849,9 @@ def mf_undef_schema(f, rng):
     nm = f"nosuch_lib{rng.randint(0, 99)}"
     i.schema = nm
     n = 1 if i.items is None else len(i.items)
-    return Fault("undefined-schema", f, [("UNDEFINED_SCHEMA", [nm])] * n)
+    flt = Fault("undefined-schema", f, [("UNDEFINED_SCHEMA", [nm])] * n)
+    flt.where = s.name
+    return flt
 
 
 def mf_undef_item(f, rng):
@@ -802,7 +861,9 @@ def mf_undef_item(f, rng):
     s, i = rng.choice(c)
     nm = f"nosuch_x{rng.randint(0, 99)}"
     i.items.insert(rng.randint(0, len(i.items)), Item(nm, f"al_n{rng.randint(0, 9)}" if rng.random() < 0.3 else None))
-    return Fault("undefined-import", f, [("REF_NONEXISTENT", [nm, i.schema])])
+    flt = Fault("undefined-import", f, [("REF_NONEXISTENT", [nm, i.schema])])
+    flt.where = s.name
+    return flt
 
 
 def mf_dup_alias(f, rng):
@@ -826,8 +887,10 @@ def mf_dup_alias(f, rng):
         return None
     i.items.insert(i.items.index(it) + 1, Item(other, alias))
     first = it
-    return Fault("duplicate-declaration", f, [("DUPLICATE_DECL", [alias, lambda: str(first.line)])],
-                 note=f"{it.old} and {other} both imported as {alias}")
+    flt = Fault("duplicate-declaration", f, [("DUPLICATE_DECL", [alias, lambda: str(first.line)])],
+                note=f"{it.old} and {other} both imported as {alias}")
+    flt.where = s.name
+    return flt
 
 
 def m_dup_redecl_attr(s, rng):
@@ -868,22 +931,134 @@ def m_type_self_cycle(s, rng):
     return Fault("circular-type", s, [("CIRCULAR_REFERENCE", [nm])])
 
 
+def _unique_host(s, rng, need_ancestor):
+    c = [e for e in s.entities() if (not need_ancestor) or [a for a in _ancestors(s, e) if isinstance(s.find(a), Entity)]]
+    return rng.choice(c) if c else None
+
+
+def m_unique_unknown_attr(s, rng):
+    e = _unique_host(s, rng, False)
+    if e is None:
+        return None
+    nm = f"nosuch_u{rng.randint(0, 99)}"
+    e.uniques.append(Unique(f"ur{len(e.uniques)}", None, nm))
+    return Fault("undefined-attribute", s, [("UNKNOWN_ATTR_IN_ENTITY", [nm, e.name])], note="UNIQUE rule over an unknown attribute")
+
+
+def m_unique_unknown_qualified_attr(s, rng):
+    e = _unique_host(s, rng, True)
+    if e is None:
+        return None
+    q = rng.choice(sorted(a for a in _ancestors(s, e) if isinstance(s.find(a), Entity)))
+    nm = f"nosuch_q{rng.randint(0, 99)}"
+    e.uniques.append(Unique(f"ur{len(e.uniques)}", q, nm))
+    return Fault("undefined-attribute", s, [("UNKNOWN_ATTR_IN_ENTITY", [nm, q]), ("UNKNOWN_ATTR_IN_ENTITY", [nm, e.name])],
+                 note=f"UNIQUE rule over SELF\\{q}.{nm}")
+
+
+def m_unique_unknown_supertype(s, rng):
+    c = [(e, a) for e in s.entities() for a in e.attrs if a.inverse_for is None]
+    if not c:
+        return None
+    e, a = rng.choice(c)
+    q = f"nosuch_g{rng.randint(0, 99)}"
+    e.uniques.append(Unique(f"ur{len(e.uniques)}", q, a.name))
+    return Fault("undefined-supertype", s, [("GROUP_REF_NO_SUCH_ENTITY", [q]), ("UNKNOWN_SUPERTYPE", [q, e.name])],
+                 note="UNIQUE rule qualified by an unknown supertype")
+
+
+def m_unique_needless_qualifier(s, rng):
+    """the entity redeclares an inherited attribute and still qualifies it in a UNIQUE rule: warning class unnecessary_qualifiers"""
+    c = [(e, a) for e in s.entities() for a in e.attrs if a.redecl_of]
+    if not c:
+        return None
+    e, a = rng.choice(c)
+    e.uniques.append(Unique(f"ur{len(e.uniques)}", a.redecl_of, a.name))
+    return Fault("needless-qualifier", s, [("UNIQUE_QUAL_REDECL", [a.name, e.name])], verdict="accept", warn=True)
+
+
+MUTATORS["unique_unknown_attr"] = m_unique_unknown_attr
+MUTATORS["unique_unknown_qualified_attr"] = m_unique_unknown_qualified_attr
+MUTATORS["unique_unknown_supertype"] = m_unique_unknown_supertype
+MUTATORS["unique_needless_qualifier"] = m_unique_needless_qualifier
 MUTATORS["type_self_cycle"] = m_type_self_cycle
 MUTATORS["dup_redecl_attr"] = m_dup_redecl_attr
 MUTATORS["entity_as_type"] = m_entity_as_type
-FILE_MUTATORS = {"undef_schema": mf_undef_schema, "undef_item": mf_undef_item, "dup_alias": mf_dup_alias}
+def _imported_types(f, s):
+    """(visible name, declared name, home schema) of TYPEs schema `s` imports through partial USE/REFERENCE items"""
+    out = []
+    for i in s.ifaces:
+        if i.items:
+            ex = exports(f, i.schema)
+            for it in i.items:
+                o = ex.get(it.old)
+                if o and o[2] == "type" and it.visible() not in _own(s):
+                    out.append((it.visible(), o[1], o[0]))
+    return out
 
 
-def mutate_file(f, name, rng):
+def mf_super_not_entity(f, rng):
+    c = [(s, e, t) for s in f.schemas for t in _imported_types(f, s) for e in s.entities()]
+    if not c:
+        return None
+    s, e, (vis, decl, home) = rng.choice(c)
+    e.supers.insert(rng.randint(0, len(e.supers)), vis)
+    t = f.find_schema(home).find(decl)
+    flt = Fault("undefined-supertype", f, [("SUPERTYPE_RESOLVE", [vis, lambda: str(t.line)])], note=f"{vis} is the imported TYPE {home}.{decl}")
+    flt.where = s.name
+    return flt
+
+
+def mf_sub_not_entity(f, rng):
+    c = [(s, e, t) for s in f.schemas for t in _imported_types(f, s) for e in s.entities()]
+    if not c:
+        return None
+    s, e, (vis, decl, home) = rng.choice(c)
+    if e.subs_expr is None:
+        e.subs_expr = vis
+    elif isinstance(e.subs_expr, str):
+        e.subs_expr = ("ONEOF", [e.subs_expr, vis])
+    else:
+        e.subs_expr[1].append(vis)
+    t = f.find_schema(home).find(decl)
+    flt = Fault("undefined-subtype", f, [("SUBTYPE_RESOLVE", [vis, decl, lambda: str(t.line)])], note=f"{vis} is the imported TYPE {home}.{decl}")
+    flt.where = s.name
+    return flt
+
+
+def externalise(f, rng):
+    """move 1..2 imported schemas of a multi-schema file into files of their own (found through the current directory, or
+    through EXPRESS_PATH=lib); schemas nobody reachable imports are dropped.  Returns the EXPRESS_PATH value or None."""
+    imported = [s.name for s in f.schemas if any(i.schema == s.name for t in f.schemas for i in t.ifaces)]
+    if not imported or len(f.schemas) < 2:
+        return None, False
+    via_path = rng.random() < 0.5
+    for nm in rng.sample(imported, min(len(imported), rng.randint(1, 2))):
+        f.find_schema(nm).file = ("lib/" if via_path else "") + nm.lower() + ".exp"
+    if all(s.file for s in f.schemas):
+        next(s for s in f.schemas if s.name not in imported or True).file = None
+    keep = [s for s in f.schemas if not s.file] + load_order(f)
+    f.schemas = [s for s in f.schemas if s in keep]
+    return ("lib" if via_path else None), any(s.file for s in f.schemas)
+
+
+FILE_MUTATORS = {"undef_schema": mf_undef_schema, "undef_item": mf_undef_item, "dup_alias": mf_dup_alias,
+                 "super_not_entity": mf_super_not_entity, "sub_not_entity": mf_sub_not_entity}
+
+
+def mutate_file(f, name, rng, where=None):
     """a FILE_MUTATORS fault, or a single-schema mutator applied to one schema of the file"""
     g = copy.deepcopy(f)
     if name in FILE_MUTATORS:
-        return FILE_MUTATORS[name](g, rng)
-    s = rng.choice(g.schemas)
+        flt = FILE_MUTATORS[name](g, rng)
+        return flt
+    pool = [x for x in g.schemas if not (x.file and name in ("syntax",))] or g.schemas
+    s = rng.choice(pool) if where is None else g.find_schema(where)
     flt = MUTATORS[name](s, rng)
     if flt is None:
         return None
     flt.schema = g
+    flt.where = s.name
     return flt
 
 
